@@ -67,6 +67,12 @@ def install(I, name, kind, sub):
         return False
     I.stubs['Path::is_dir'] = pathbuf_is_dir
     I.env.exists_handler = lambda I_, path, which: False
+    # reading the line back may find a command substitution in it (a name containing a backquote pair): the command's
+    # output is an arbitrary text, here one fixed character - the name is then no longer what the program receives
+    def rp_stub(I_, a, c):
+        cr = hlib.mk_struct(I.prog, 'CommandResult', gid=0, status=0, stdout=RString(lit('X')), stderr=RString())
+        return Agg(None, [False, cr])
+    I.stubs['run_pipeline'] = rp_stub; I.stubs['core::run_pipeline'] = rp_stub
 
 def body(inst, b):
     def h(I):
